@@ -192,15 +192,15 @@ func c05Start(r *fw.Rand, s int) (*rtp.Header, *c05Model, string) {
 }
 
 type c05Snap struct {
-	ext      bool
-	profile  uint16
-	ids      []uint8
-	vals     [][]byte
-	marshal  []byte
-	mErr     bool
-	mPanic   bool
-	csrc     []uint32
-	fixed    [6]uint32
+	ext     bool
+	profile uint16
+	ids     []uint8
+	vals    [][]byte
+	marshal []byte
+	mErr    bool
+	mPanic  bool
+	csrc    []uint32
+	fixed   [6]uint32
 }
 
 func c05Snapshot(h *rtp.Header) c05Snap {
